@@ -23,10 +23,13 @@ RULE = ("every token sequence (smallest first) over alphabet A = { } \" , = LF b
         "C01 recursion defect is not what is measured).  Checked on parse_string(text, parse_stack=[]) and, for the "
         "random documents, also on Splitter(text).split().  A violation is labelled F3 only when a failed block that is not a "
         "duplicate-key/-field wrapper precedes the point where the tiling breaks, F2 only when the tiling holds and the "
-        "reported line equals the true line minus the number of backslash-LF pairs before it.  distinct = distinct text; non-trivial = the text has a "
+        "reported line equals the true line minus the number of backslash-LF pairs before it.  In the thorough tier the "
+        "texts of exactly 7 tokens are evaluated as batches (4-token prefix + every 3-token extension); a batch reports its "
+        "first violating text, one without finding key before any other.  distinct = distinct text; non-trivial = the text has a "
         "non-whitespace character (at least one block must come out)")
 BOUND = {"quick": "all sequences of <= 6 tokens over A (3,257,437) and <= 5 tokens over B (271,453); 200 random documents of 20..300 pieces (4 modes: valid only / + backslash-newline / + broken blocks / all)",
-         "thorough": "all sequences of <= 7 tokens over A (39,089,245) and <= 6 tokens over B (3,257,437); 2000 random documents of 20..1500 pieces (same 4 modes)"}
+         "thorough": "all sequences of <= 7 tokens over A (39,089,245: <= 6 tokens one evaluation per text, the 35,831,808 texts of exactly 7 tokens as 20,736 batch "
+                     "evaluations of 1,728 texts each) and <= 6 tokens over B (3,257,437); 2000 random documents of 20..1500 pieces (same 4 modes)"}
 
 F2 = "F2-backslash-newline-line"
 F3 = "F3-abort-boundary"
@@ -184,6 +187,34 @@ def check_tiling(spec):
     return _eval(spec, True)
 
 
+_PRE_BATCH = None    # (prefix, [(index, verdict), ...]) computed by the pool for the batch about to be checked
+ALPHAS = {"A": ALPHA_A, "B": ALPHA_B}
+
+
+def check_tiling_batch(spec):
+    """spec: {"alphabet": "A"|"B", "prefix": text, "k": int} = every text prefix + (k tokens of that alphabet).
+    Reports the first text of the batch that violates C03, an unexplained one (no finding key) before any other."""
+    global _PRE_BATCH
+    pre, _PRE_BATCH = _PRE_BATCH, None
+    alpha = ALPHAS[spec["alphabet"]]
+    if pre is not None and pre[0] == spec["prefix"]:
+        found = pre[1]
+    else:
+        found = [(i, r) for i, r in enumerate(map(_eval_fast, tokens.batch_texts(alpha, spec["k"], spec["prefix"]))) if r is not None]
+    if not found:
+        return None
+    i, verdict = next(((i, r) for i, r in found if r == "?"), found[0])
+    if verdict != "?" and _SHOWN.get("batch:" + verdict, 0) >= 3:
+        return {"what": "same family as the first violations reported (replay this batch for the details)", "finding_key": verdict}
+    _SHOWN["batch:" + verdict] = _SHOWN.get("batch:" + verdict, 0) + 1
+    text = tokens.batch_texts(alpha, spec["k"], spec["prefix"])[i]
+    v = _eval(text, True)
+    if v is None:
+        raise RuntimeError("verdict for %r is not reproducible" % text)
+    v["what"] = "text %r (%d of %d texts of the batch violate): %s" % (text, len(found), len(alpha) ** spec["k"], v["what"])
+    return v
+
+
 # random large documents ------------------------------------------------------------------------------------------------
 _VALID = [
     "@article{%s,\n  title = {A {nested} title},\n  year = 1990,\n  author = \"Q, A and B\"\n}",
@@ -266,12 +297,13 @@ def check_document(spec):
     return v
 
 
-CHECKS = {"C03.tiling": check_tiling, "C03.document": check_document}
+CHECKS = {"C03.tiling": check_tiling, "C03.tiling_batch": check_tiling_batch, "C03.document": check_document}
 
 
 def generate(tier, rng):
     global _PRE
-    la, lb = (6, 5) if tier == "quick" else (7, 6)
+    global _PRE_BATCH
+    la, lb = (6, 5) if tier == "quick" else (6, 6)
     # smallest first: both alphabets level by level would interleave pools; A then B keeps each stream ordered by length
     for text, verdict in tokens.scan(_eval_fast, ALPHA_A, la):
         _PRE = (text, verdict)
@@ -279,6 +311,11 @@ def generate(tier, rng):
     for text, verdict in tokens.scan(_eval_fast, ALPHA_B, lb):
         _PRE = (text, verdict)
         yield "C03.tiling", text, bool(text.strip())
+    if tier != "quick":
+        # the 12**7 level: one evaluation per batch of 12**3 texts (keeps the driver's per-evaluation bookkeeping small)
+        for prefix, found in tokens.scan_batches(_eval_fast, ALPHA_A, 7, 3):
+            _PRE_BATCH = (prefix, found)
+            yield "C03.tiling_batch", {"alphabet": "A", "prefix": prefix, "k": 3}, True
     ndocs, maxp = (200, 300) if tier == "quick" else (2000, 1500)
     for i in range(ndocs):
         pieces = 20 + (maxp - 20) * i // max(1, ndocs - 1)
